@@ -114,7 +114,12 @@ fn get_current_first_set_for_symbol(
     map: &HashMap<String, FirstSet>,
 ) -> FirstSet {
     match symbol {
-        IdentOrTerminalIdent::Ident(ident) => map.get(&ident.name).unwrap().clone(),
+        // A nonterminal without any rule (an enum with no variants) has no
+        // entry in the map: it derives nothing, so its FIRST set is empty.
+        IdentOrTerminalIdent::Ident(ident) => map.get(&ident.name).cloned().unwrap_or(FirstSet {
+            terminals: Oset::new(),
+            contains_epsilon: false,
+        }),
         IdentOrTerminalIdent::Terminal(terminal_ident) => FirstSet {
             terminals: [terminal_ident.name.clone()].into_iter().collect(),
             contains_epsilon: false,
